@@ -42,6 +42,8 @@ class ScriptServer(object):
         self.received = []
         self.send_times = []
         self.error = None
+        self.sent_all = threading.Event()
+        self.slow_reader = False
         self.conns = conns
         self.th = threading.Thread(target=self.run, daemon=True)
         self.th.start()
@@ -65,18 +67,29 @@ class ScriptServer(object):
                             self.send_times.append(time.monotonic())
                         elif item[0] == "pause":
                             time.sleep(item[1])
+                        elif item[0] == "rst":
+                            import struct as _st
+                            conn.setsockopt(socket.SOL_SOCKET, socket.SO_LINGER, _st.pack("ii", 1, 0))
+                            self.sent_all.set()
+                            raise ConnectionAbortedError("deliberate reset")
                         elif item[0] == "recv":
+                            self.sent_all.set()
                             while len(got) < item[1]:
                                 d = conn.recv(65536)
                                 if not d:
                                     break
                                 got.extend(d)
+                                if self.slow_reader:
+                                    time.sleep(0.002)
+                    self.sent_all.set()
                     # wait for the client to close
                     try:
                         while conn.recv(65536):
                             pass
                     except OSError:
                         pass
+                except ConnectionAbortedError:
+                    pass
                 finally:
                     conn.close()
         except Exception as e:  # noqa
@@ -106,10 +119,22 @@ def run_script(case, stats):
             items.append(("pause", 0.002))
         elif timeout is None and rng.random() < 0.1 and pos < len(stream):
             items.append(("pause", 0.08))      # with timeout None a read must simply wait for the peer
+    big_out = timeout is not None and rng.random() < 0.35
     outbound = [scen.blob(case["seed"] + "w%d" % i, rng.choice([1, 24, 3000, 40000])) for i in range(rng.randint(1, 4))]
-    items.append(("recv", sum(len(o) for o in outbound)))
+    if big_out:
+        outbound.append(scen.blob(case["seed"] + "big", 600000))      # far more than the (shrunken) send buffer takes at once
+    rst = rng.random() < 0.3
+    if rst:
+        # the peer resets the first connection instead of closing it cleanly; close() and a new connect() must still work
+        items.append(("recv", max(0, sum(len(o) for o in outbound) - 1)))
+        items.append(("rst",))
+    else:
+        items.append(("recv", sum(len(o) for o in outbound)))
     second = scen.blob(case["seed"] + "second", 500)
     srv = ScriptServer([items, [("send", second)]])
+    srv.slow_reader = big_out
+    stats["resets"] += 1 if rst else 0
+    stats["big_outbound"] += 1 if big_out else 0
     reqs = [rng.choice([1, 3, 24, 24, 100, 100, 1000, 4096, 70000]) for _ in range(64)]
     data = bytearray()
     timeouts_seen = []
@@ -125,8 +150,10 @@ def run_script(case, stats):
     if case["impl"] == "sync":
         from adb_shell.transport.tcp_transport import TcpTransport
         t = TcpTransport("127.0.0.1", srv.port)
-        t.connect(timeout)
+        with tcp_peer.SndbufPatch(8192 if big_out else None):
+            t.connect(timeout)
         i = 0
+        dry = 0
         guard = time.monotonic() + 60
         while len(data) < len(stream) and time.monotonic() < guard:
             n = reqs[i % len(reqs)]
@@ -136,6 +163,9 @@ def run_script(case, stats):
                 d = t.bulk_read(n, timeout)
             except exc_name:
                 timeouts_seen.append(time.monotonic() - t0)
+                dry = dry + 1 if srv.sent_all.is_set() else 0
+                if dry >= 4:
+                    break              # the peer has sent everything and nothing more arrives: whatever is missing was lost
                 continue
             except Exception as e:  # noqa
                 viol.append({"mechanism": "read-raised:%s" % type(e).__name__, "detail": "sync bulk_read(%d, %r) raised %s: %s" % (n, timeout, type(e).__name__, str(e)[:120])})
@@ -145,11 +175,15 @@ def run_script(case, stats):
                 break
             record_read(n, d)
             data += d
-        for o in outbound:
-            left = o
-            while left:
-                k = t.bulk_write(left, timeout)
-                left = left[k:]
+        try:
+            for o in outbound:
+                left = o
+                while left:
+                    k = t.bulk_write(left, 5.0 if timeout else timeout)
+                    left = left[k:]
+        except OSError:
+            if not rst:
+                raise
         t.close()
         t.close()          # idempotent
         stats["double_closes"] += 1
@@ -159,6 +193,9 @@ def run_script(case, stats):
                 d = t.bulk_read(100, timeout if timeout else 5.0)
             except exc_name:
                 continue
+            except Exception as e:  # noqa
+                viol.append({"mechanism": "reconnect", "detail": "sync transport after close() and connect(): bulk_read raised %s: %s" % (type(e).__name__, str(e)[:100])})
+                break
             if not d:
                 break
             second_got += d
@@ -174,6 +211,7 @@ def run_script(case, stats):
             t = TcpTransportAsync("127.0.0.1", srv.port)
             await t.connect(timeout)
             i = 0
+            dry = [0]
             guard = time.monotonic() + 60
             while len(data) < len(stream) and time.monotonic() < guard:
                 n = reqs[i % len(reqs)]
@@ -183,6 +221,9 @@ def run_script(case, stats):
                     d = await t.bulk_read(n, timeout)
                 except exc_name:
                     timeouts_seen.append(time.monotonic() - t0)
+                    dry[0] = dry[0] + 1 if srv.sent_all.is_set() else 0
+                    if dry[0] >= 4:
+                        break
                     if timeout:
                         await asyncio.sleep(timeout * 0.6)   # idle for a while: data that arrives now belongs to the NEXT read
                     continue
@@ -194,10 +235,14 @@ def run_script(case, stats):
                     break
                 record_read(n, d)
                 data.extend(d)
-            for o in outbound:
-                k = await t.bulk_write(o, timeout)
-                if k != len(o):
-                    viol.append({"mechanism": "write-count", "detail": "async bulk_write returned %r for %d bytes" % (k, len(o))})
+            try:
+                for o in outbound:
+                    k = await t.bulk_write(o, 5.0 if timeout else timeout)
+                    if k != len(o):
+                        viol.append({"mechanism": "write-count", "detail": "async bulk_write returned %r for %d bytes" % (k, len(o))})
+            except OSError:
+                if not rst:
+                    raise
             await asyncio.sleep(0.02)
             await t.close()
             try:
@@ -211,6 +256,9 @@ def run_script(case, stats):
                     d = await t.bulk_read(100, timeout if timeout else 5.0)
                 except exc_name:
                     continue
+                except Exception as e:  # noqa
+                    viol.append({"mechanism": "reconnect", "detail": "async transport after close() and connect(): bulk_read raised %s: %s" % (type(e).__name__, str(e)[:100])})
+                    break
                 if not d:
                     break
                 second_got.extend(d)
@@ -243,7 +291,11 @@ def run_script(case, stats):
         if pauses and not timeouts_seen:
             viol.append({"mechanism": "timeout-swallowed", "detail": "%s: the peer paused %d times for 2.5 x timeout but no read raised TcpTimeoutException" % (where, pauses)})
     got0 = bytes(srv.received[0]) if srv.received else b""
-    if got0 != b"".join(outbound):
+    if rst:
+        want0 = b"".join(outbound)
+        if not want0.startswith(got0):
+            viol.append({"mechanism": "write-mismatch", "detail": "%s: what the peer received before it reset the connection is not a prefix of what was written" % where})
+    elif got0 != b"".join(outbound):
         viol.append({"mechanism": "write-mismatch", "detail": "%s: peer received %d bytes, %d were written" % (where, len(got0), sum(len(o) for o in outbound))})
     if bytes(second_got) != second:
         viol.append({"mechanism": "reconnect", "detail": "%s: after close() and connect() the transport read %d of the new connection's %d bytes" % (where, len(second_got), len(second))})
@@ -347,7 +399,7 @@ def run_session(case, stats):
 
 
 def run_case(case):
-    stats = {"scripts": 0, "reads_checked": 0, "timeouts_observed": 0, "reconnects": 0, "sessions": 0, "double_closes": 0, "bytes_read": 0, "inconclusive_retries": 0}
+    stats = {"scripts": 0, "reads_checked": 0, "timeouts_observed": 0, "reconnects": 0, "sessions": 0, "double_closes": 0, "bytes_read": 0, "inconclusive_retries": 0, "resets": 0, "big_outbound": 0}
     if case["kind"] == "script":
         sig, viol, sample = run_script(case, stats)
     else:
